@@ -161,10 +161,12 @@ def run(chk):
         GG = symmat("q", n + 1, m + 1)
         tag = f"C10.identity.qed_ns[order={order}]"
         hook.ACTIVE_CUTS.clear()
-        hook.ACTIVE_CUTS[("eko.kernels.non_singlet_qed", "exact", 0)] = LoopSpec(
-            lambda phase: {"res": Q(1)}, lambda: T.var("step", "int"),
-            lambda env, it: chk.eq(f"{tag}.loop_entry", env["res"], 1, fn="eko.kernels.non_singlet_qed:exact", goal="res == 1 on entry"),
-            lambda env: chk.eq(f"{tag}.loop_preserved", env["res"], 1, fn="eko.kernels.non_singlet_qed:exact", goal="res == 1 preserved by an arbitrary step with equal couplings and scales", replay=rp, assumptions=[mu > 0]))
+        NSKEY = ("eko.kernels.non_singlet_qed", "exact", "iter:ev_op_iterations")      # the loop over the evolution steps; its accumulator is found by its role, not its name
+        acc_ns = lambda: hook.ACTIVE_CUTS[NSKEY].accumulator()  # noqa: E731
+        hook.ACTIVE_CUTS[NSKEY] = LoopSpec(
+            lambda phase: {acc_ns(): Q(1)}, lambda: T.var("step", "int"),
+            lambda env, it: chk.eq(f"{tag}.loop_entry", env[acc_ns()], 1, fn="eko.kernels.non_singlet_qed:exact", goal="res == 1 on entry"),
+            lambda env: chk.eq(f"{tag}.loop_preserved", env[acc_ns()], 1, fn="eko.kernels.non_singlet_qed:exact", goal="res == 1 preserved by an arbitrary step with equal couplings and scales", replay=rp, assumptions=[mu > 0]))
         saved_roots = e4.roots
         e4.roots = lambda b: [T.app(f"cubic_root_{i}", *b) for i in (1, 2, 3)]
         try:
@@ -186,10 +188,12 @@ def run(chk):
                     return (vnp.eye(dim), None, None)
                 return (symmat("Xfree", dim), None, None)
 
-            hook.ACTIVE_CUTS[("eko.kernels.singlet_qed", "eko_iterate", 1)] = LoopSpec(
-                lambda phase: {"e": vnp.eye(dim)}, lambda: T.var("step", "int"),
-                lambda env, it: chk.eq_array(f"{tagq}.loop_entry", env["e"], vnp.eye(dim), fn=fnm, goal="e == 1 on entry"),
-                lambda env: chk.eq_array(f"{tagq}.loop_preserved", env["e"], vnp.eye(dim), fn=fnm, goal="e == 1 preserved by a step with al == ah", replay=rp))
+            QKEY = ("eko.kernels.singlet_qed", "eko_iterate", "iter:ev_op_iterations")
+            acc_q = lambda: hook.ACTIVE_CUTS[QKEY].accumulator()  # noqa: E731
+            hook.ACTIVE_CUTS[QKEY] = LoopSpec(
+                lambda phase: {acc_q(): vnp.eye(dim)}, lambda: T.var("step", "int"),
+                lambda env, it: chk.eq_array(f"{tagq}.loop_entry", env[acc_q()], vnp.eye(dim), fn=fnm, goal="e == 1 on entry"),
+                lambda env: chk.eq_array(f"{tagq}.loop_preserved", env[acc_q()], vnp.eye(dim), fn=fnm, goal="e == 1 preserved by a step with al == ah", replay=rp))
             saved = ad.exp_matrix
             ad.exp_matrix = matexp_stub
             try:
